@@ -111,17 +111,28 @@ impl Qcow2IoOps for Qcow2IoUring {
     }
 
     async fn write_from(&self, offset: u64, buf: &[u8]) -> Qcow2Result<()> {
-        let ubuf = SliceBuf {
-            ptr: buf.as_ptr(),
-            len: buf.len(),
-        };
+        // a write is done once all of it is in the file: go on after a
+        // short count, report the error that stopped it instead of success
+        let mut done = 0;
+        while done < buf.len() {
+            let ubuf = SliceBuf {
+                ptr: buf[done..].as_ptr(),
+                len: buf.len() - done,
+            };
 
-        let (res, _) = self.file.write_at(ubuf, offset).submit().await;
+            let (res, _) = self
+                .file
+                .write_at(ubuf, offset + done as u64)
+                .submit()
+                .await;
 
-        match res {
-            Err(_) => Err("tokio-uring write failed".into()),
-            Ok(_) => Ok(()),
+            match res {
+                Err(_) => return Err("tokio-uring write failed".into()),
+                Ok(0) => return Err("tokio-uring write made no progress".into()),
+                Ok(n) => done += n,
+            }
         }
+        Ok(())
     }
 
     async fn fallocate(&self, offset: u64, len: usize, flags: u32) -> Qcow2Result<()> {
